@@ -4,7 +4,7 @@ use crate::driver::{Ctx, Obs, Violation, viol};
 use crate::fieldkit::*;
 use crate::lib_api::*;
 use crate::msgkit::*;
-use crate::props::c10::{gen_b1, gen_b2, gen_b3_value, gen_b5_value, gen_env, B3_TAGS, B5_TAGS};
+use crate::props::c10::{B3_TAGS, B5_TAGS, gen_b1, gen_b2, gen_b3_value, gen_b5_value, gen_env};
 use serde::{Deserialize, Serialize};
 use serde_json::{Value, json};
 
@@ -18,7 +18,10 @@ pub struct TotalCase {
     pub mutation: String,
 }
 
-const SPECIALS: &[&str] = &["é", "€", "𝟙", "٣", "\u{301}", ":", "{", "}", "-", "\n", "\r\n", "/", ",", " ", "\t", "\u{0}", "+", "\u{feff}", "ß", "İ"];
+const SPECIALS: &[&str] = &[
+    "é", "€", "𝟙", "٣", "\u{301}", ":", "{", "}", "-", "\n", "\r\n", "/", ",", " ", "\t", "\u{0}",
+    "+", "\u{feff}", "ß", "İ",
+];
 
 /// byte/char-level mutation of a text (kept valid UTF-8)
 pub fn mutate_text(s: &str, src: &mut Src) -> (String, String) {
@@ -44,7 +47,13 @@ pub fn mutate_text(s: &str, src: &mut Src) -> (String, String) {
             let mut t: String = cs[..p].iter().collect();
             t.push_str(sp);
             t.extend(cs[p..].iter());
-            (t, format!("insert-{}", if sp.is_ascii() { "ascii" } else { "multibyte" }))
+            (
+                t,
+                format!(
+                    "insert-{}",
+                    if sp.is_ascii() { "ascii" } else { "multibyte" }
+                ),
+            )
         }
         4 => {
             if n == 0 {
@@ -55,7 +64,13 @@ pub fn mutate_text(s: &str, src: &mut Src) -> (String, String) {
             let mut t: String = cs[..p].iter().collect();
             t.push_str(sp);
             t.extend(cs[p + 1..].iter());
-            (t, format!("replace-{}", if sp.is_ascii() { "ascii" } else { "multibyte" }))
+            (
+                t,
+                format!(
+                    "replace-{}",
+                    if sp.is_ascii() { "ascii" } else { "multibyte" }
+                ),
+            )
         }
         5 => {
             let a = pos(src);
@@ -92,17 +107,31 @@ pub fn generate(shard: usize, src: &mut Src) -> TotalCase {
             if src.flip() {
                 // a richer body than the minimal one
                 let m = gen_valid_msg(mt, src);
-                let body: String = m.fields.iter().map(|f| format!(":{}:{}\n", f.tag, f.content)).collect();
+                let body: String = m
+                    .fields
+                    .iter()
+                    .map(|f| format!(":{}:{}\n", f.tag, f.content))
+                    .collect();
                 text = format!("{{1:{}}}{{2:{}}}{{4:\n{}-}}", e.b1, e.b2, body);
             }
             let (t, m) = mutate_text(&text, src);
-            TotalCase { kind: "message".into(), target: mt.to_string(), input: t, mutation: m }
+            TotalCase {
+                kind: "message".into(),
+                target: mt.to_string(),
+                input: t,
+                mutation: m,
+            }
         }
         3 | 4 => {
             let mt = mt_of_shard(shard);
             let m = gen_valid_msg(mt, src);
             let (t, mu) = mutate_text(&m.text(src.flip(), src.flip()), src);
-            TotalCase { kind: "block4".into(), target: mt.to_string(), input: t, mutation: mu }
+            TotalCase {
+                kind: "block4".into(),
+                target: mt.to_string(),
+                input: t,
+                mutation: mu,
+            }
         }
         5 | 6 => {
             let f = &FIELDS[src.below(FIELDS.len())];
@@ -110,9 +139,18 @@ pub fn generate(shard: usize, src: &mut Src) -> TotalCase {
                 Some((_, _, mem)) => mem[src.below(mem.len())].1,
                 None => f.name,
             };
-            let c = if src.flip() { gen_valid(conc, src) } else { random_content(conc, src) };
+            let c = if src.flip() {
+                gen_valid(conc, src)
+            } else {
+                random_content(conc, src)
+            };
             let (t, mu) = mutate_text(&c.content, src);
-            TotalCase { kind: "field".into(), target: f.name.to_string(), input: t, mutation: mu }
+            TotalCase {
+                kind: "field".into(),
+                target: f.name.to_string(),
+                input: t,
+                mutation: mu,
+            }
         }
         7 => {
             let k = *src.pick(&[1u8, 2, 3, 5]);
@@ -139,7 +177,12 @@ pub fn generate(shard: usize, src: &mut Src) -> TotalCase {
                 }
             };
             let (t, mu) = mutate_text(&text, src);
-            TotalCase { kind: "header".into(), target: k.to_string(), input: t, mutation: mu }
+            TotalCase {
+                kind: "header".into(),
+                target: k.to_string(),
+                input: t,
+                mutation: mu,
+            }
         }
         _ => {
             // JSON of a valid message with one leaf or key damaged
@@ -153,7 +196,12 @@ pub fn generate(shard: usize, src: &mut Src) -> TotalCase {
             };
             let mut v = j.clone();
             let mu = damage_json(&mut v, src);
-            TotalCase { kind: "json".into(), target: mt.to_string(), input: v.to_string(), mutation: mu }
+            TotalCase {
+                kind: "json".into(),
+                target: mt.to_string(),
+                input: v.to_string(),
+                mutation: mu,
+            }
         }
     }
 }
@@ -209,7 +257,10 @@ pub fn damage_json(v: &mut Value, src: &mut Src) -> String {
         6 => ("array", json!([])),
         7 => ("object", json!({})),
         8 => ("bool", json!(true)),
-        _ => ("multibyte-prefix", json!("éBCDEFGHIJKLMNOPQRSTUVWXYZ0123456789")),
+        _ => (
+            "multibyte-prefix",
+            json!("éBCDEFGHIJKLMNOPQRSTUVWXYZ0123456789"),
+        ),
     };
     if let Some(slot) = at(v, &p) {
         *slot = newv;
@@ -220,7 +271,13 @@ pub fn damage_json(v: &mut Value, src: &mut Src) -> String {
 fn panic_viol(entry: &str, e: &LibErr, input: &str) -> Option<Violation> {
     if let LibErr::Panic(p) = e {
         let shown: String = input.chars().take(300).collect();
-        Some(viol(format!("C07|panic|{}|{}", p.kind, p.lib_frame), format!("{} panicked: {} at {} on input {:?}", entry, p.msg, p.location, shown)))
+        Some(viol(
+            format!("C07|panic|{}|{}", p.kind, p.lib_frame),
+            format!(
+                "{} panicked: {} at {} on input {:?}",
+                entry, p.msg, p.location, shown
+            ),
+        ))
     } else {
         None
     }
@@ -261,7 +318,10 @@ pub fn oracle(c: &TotalCase, obs: &mut Obs) -> Vec<Violation> {
         "message" => {
             chk!("parse_auto", parse_auto(x));
             chk!("parse::<T>", (msg_ops(&c.target).parse_full)(x));
-            chk!("parse_with_errors", (msg_ops(&c.target).parse_with_errors)(x));
+            chk!(
+                "parse_with_errors",
+                (msg_ops(&c.target).parse_with_errors)(x)
+            );
             for i in 0..=6u8 {
                 chk!("extract_block", extract_block(x, i));
             }
@@ -272,7 +332,11 @@ pub fn oracle(c: &TotalCase, obs: &mut Obs) -> Vec<Violation> {
             chk!("parse_from_block4", (msg_ops(&c.target).parse_block4)(x));
             match block4_fields(x) {
                 Ok(map) => {
-                    let ops = vec![TrackerOp::Find("50".into(), Some(vec!["A".into(), "K".into()])), TrackerOp::Take("20".into()), TrackerOp::Find("59".into(), None)];
+                    let ops = vec![
+                        TrackerOp::Find("50".into(), Some(vec!["A".into(), "K".into()])),
+                        TrackerOp::Take("20".into()),
+                        TrackerOp::Find("59".into(), None),
+                    ];
                     chk!("tracker", run_tracker(&map, &ops));
                     let (m, cf, hc) = sequence_config(&format!("MT{}", c.target));
                     chk!("split_into_sequences", split_sequences(&map, &m, &cf, hc));
@@ -291,7 +355,10 @@ pub fn oracle(c: &TotalCase, obs: &mut Obs) -> Vec<Violation> {
             let ops = field_ops(&c.target);
             chk!("SwiftField::parse", (ops.parse)(x));
             for l in [None, Some("A"), Some("F"), Some("K"), Some(""), Some("Z")] {
-                chk!("SwiftField::parse_with_variant", (ops.parse_variant)(x, l, Some("50")));
+                chk!(
+                    "SwiftField::parse_with_variant",
+                    (ops.parse_variant)(x, l, Some("50"))
+                );
             }
         }
         "header" => {
@@ -305,7 +372,12 @@ pub fn oracle(c: &TotalCase, obs: &mut Obs) -> Vec<Violation> {
                 if let Some(f) = v.get("fields") {
                     chk!("body from_value", (msg_ops(&c.target).body_from_json)(f));
                 }
-                for (k, key) in [(1u8, "basic_header"), (2, "application_header"), (3, "user_header"), (5, "trailer")] {
+                for (k, key) in [
+                    (1u8, "basic_header"),
+                    (2, "application_header"),
+                    (3, "user_header"),
+                    (5, "trailer"),
+                ] {
                     if let Some(h) = v.get(key) {
                         chk!("header from_value + Display", header_from_json(k, h));
                     }
@@ -320,21 +392,56 @@ pub fn oracle(c: &TotalCase, obs: &mut Obs) -> Vec<Violation> {
 fn scaling(ctx: &Ctx, obs: &mut Obs) -> Vec<Violation> {
     let mut out = Vec::new();
     let families: Vec<(&str, Box<dyn Fn(usize) -> String>)> = vec![
-        ("many-fields", Box::new(|n| format!("{{1:F01BANKDEFFAXXX0000000000}}{{2:I940BANKUS33AXXXN}}{{4:\n:20:X\n:25:ACC\n:28C:1\n:60F:C240101USD1,\n{}:62F:C240101USD1,\n-}}", ":61:2401010101C1,NTRFREF\n".repeat(n / 25)))),
-        ("one-huge-line", Box::new(|n| format!("{{1:F01BANKDEFFAXXX0000000000}}{{2:I199BANKUS33AXXXN}}{{4:\n:20:X\n:79:{}\n-}}", "A".repeat(n)))),
-        ("deep-braces", Box::new(|n| format!("{{1:F01BANKDEFFAXXX0000000000}}{{2:I199BANKUS33AXXXN}}{{3:{}{}}}{{4:\n:20:X\n:79:A\n-}}", "{".repeat(n), "}".repeat(n)))),
+        (
+            "many-fields",
+            Box::new(|n| {
+                format!(
+                    "{{1:F01BANKDEFFAXXX0000000000}}{{2:I940BANKUS33AXXXN}}{{4:\n:20:X\n:25:ACC\n:28C:1\n:60F:C240101USD1,\n{}:62F:C240101USD1,\n-}}",
+                    ":61:2401010101C1,NTRFREF\n".repeat(n / 25)
+                )
+            }),
+        ),
+        (
+            "one-huge-line",
+            Box::new(|n| {
+                format!(
+                    "{{1:F01BANKDEFFAXXX0000000000}}{{2:I199BANKUS33AXXXN}}{{4:\n:20:X\n:79:{}\n-}}",
+                    "A".repeat(n)
+                )
+            }),
+        ),
+        (
+            "deep-braces",
+            Box::new(|n| {
+                format!(
+                    "{{1:F01BANKDEFFAXXX0000000000}}{{2:I199BANKUS33AXXXN}}{{3:{}{}}}{{4:\n:20:X\n:79:A\n-}}",
+                    "{".repeat(n),
+                    "}".repeat(n)
+                )
+            }),
+        ),
         ("many-block-markers", Box::new(|n| "{1:".repeat(n / 3))),
         ("colons", Box::new(|n| ":".repeat(n))),
         ("newline-colon", Box::new(|n| "\n:".repeat(n / 2))),
     ];
-    let sizes: Vec<usize> = if ctx.quick() { vec![4096, 8192, 16384] } else { vec![4096, 8192, 16384, 65536, 1 << 20] };
+    let sizes: Vec<usize> = if ctx.quick() {
+        vec![4096, 8192, 16384]
+    } else {
+        vec![4096, 8192, 16384, 65536, 1 << 20]
+    };
     for (name, f) in &families {
         let mut prev: Option<f64> = None;
         for &n in &sizes {
             let x = f(n);
             let t0 = std::time::Instant::now();
             let mut local: Vec<Violation> = Vec::new();
-            for r in [parse_auto(&x).map(|_| ()), extract_block(&x, 4).map(|_| ()), extract_block(&x, 3).map(|_| ()), (msg_ops("940").parse_block4)(&x).map(|_| ()), block4_fields(&x).map(|_| ())] {
+            for r in [
+                parse_auto(&x).map(|_| ()),
+                extract_block(&x, 4).map(|_| ()),
+                extract_block(&x, 3).map(|_| ()),
+                (msg_ops("940").parse_block4)(&x).map(|_| ()),
+                block4_fields(&x).map(|_| ()),
+            ] {
                 if let Err(e) = r {
                     if let Some(v) = panic_viol("size-scaling", &e, &format!("{name} n={n}")) {
                         local.push(v);
@@ -344,16 +451,25 @@ fn scaling(ctx: &Ctx, obs: &mut Obs) -> Vec<Violation> {
             let dt = t0.elapsed().as_secs_f64();
             obs.eval();
             obs.nontrivial_str(&format!("{name}|{n}"));
-            obs.sample("scaling", || json!({"family": name, "bytes": x.len(), "seconds": dt}));
+            obs.sample(
+                "scaling",
+                || json!({"family": name, "bytes": x.len(), "seconds": dt}),
+            );
             out.extend(local);
             // far beyond quadratic: a 16 KB input may not take more than 60 s, and doubling may not
             // multiply a non-trivial time by more than 12
             if n <= 16384 && dt > 60.0 {
-                out.push(viol(format!("C07|slow|{name}"), format!("{n} bytes took {dt:.1}s")));
+                out.push(viol(
+                    format!("C07|slow|{name}"),
+                    format!("{n} bytes took {dt:.1}s"),
+                ));
             }
             if let Some(p) = prev {
                 if p > 0.5 && dt / p > 12.0 && n <= 65536 {
-                    out.push(viol(format!("C07|growth|{name}"), format!("{} -> {} bytes: {p:.2}s -> {dt:.2}s", n / 2, n)));
+                    out.push(viol(
+                        format!("C07|growth|{name}"),
+                        format!("{} -> {} bytes: {p:.2}s -> {dt:.2}s", n / 2, n),
+                    ));
                 }
             }
             prev = Some(dt);
@@ -367,13 +483,26 @@ pub fn run(ctx: &Ctx) {
     ctx.assume("panic signature = (panic kind, innermost library frame from the symbolised backtrace), line numbers excluded");
     ctx.assume("time: only gross super-quadratic growth is judged (16 KB within 60 s, doubling ratio <= 12 when above 0.5 s)");
     let to_json = |c: &TotalCase| serde_json::to_value(c).unwrap();
-    ctx.run_generated("mutated-inputs", 60, ctx.n(6000, 150000), 1800, &generate, &oracle, &to_json);
+    ctx.run_generated(
+        "mutated-inputs",
+        60,
+        ctx.n(6000, 150000),
+        1800,
+        &generate,
+        &oracle,
+        &to_json,
+    );
     // replay the committed corpus of earlier findings (regression inputs)
     let dir = format!("{}/replays/regress/C07", crate::driver::VERIF_ROOT);
     if let Ok(rd) = std::fs::read_dir(&dir) {
         let mut files: Vec<_> = rd.filter_map(|e| e.ok()).map(|e| e.path()).collect();
         files.sort();
-        let cases: Vec<TotalCase> = files.iter().filter_map(|p| std::fs::read_to_string(p).ok()).filter_map(|s| serde_json::from_str::<Value>(&s).ok()).filter_map(|v| serde_json::from_value::<TotalCase>(v["case"].clone()).ok()).collect();
+        let cases: Vec<TotalCase> = files
+            .iter()
+            .filter_map(|p| std::fs::read_to_string(p).ok())
+            .filter_map(|s| serde_json::from_str::<Value>(&s).ok())
+            .filter_map(|v| serde_json::from_value::<TotalCase>(v["case"].clone()).ok())
+            .collect();
         ctx.run_enumerated("corpus", 1, &|_| cases.clone(), &oracle, &to_json);
     }
     ctx.run_shards("scaling", 1, &|_, obs| {
